@@ -313,6 +313,25 @@ def check_case(case):
                 except Exception as e:
                     vio.append((key("parse-raised:" + type(e).__name__),
                                 "parse_into_cases (dict cases) raised %r" % e))
+            # a request that names an argument the dataset has no dimension
+            # for at all: nothing of it has been computed
+            try:
+                full = {a: list(coords[a]) for a in names}
+                resn = parse_into_cases(
+                    combos=copy.deepcopy(full), cases=[{"nodim": 1}], ds=ds,
+                    method=method)
+                wantn = [dict({"nodim": 1}, **dict(zip(names, pt)))
+                         for pt in itertools.product(*full.values())]
+                if [dict(sorted(r.items())) for r in resn] != [
+                        dict(sorted(r.items())) for r in wantn]:
+                    vio.append((key("parse-no-dimension"),
+                                "requested an argument the dataset has no "
+                                "dimension for: %d of %d locations reported"
+                                % (len(resn), len(wantn))))
+            except Exception as e:
+                vio.append((key("parse-raised:" + type(e).__name__),
+                            "parse_into_cases (unknown argument) raised %r"
+                            % e))
             # the whole grid as combos only, then a query over fewer
             # parameters (one slice of the data) right afterwards
             queries = [(ds, list(names))]
